@@ -39,12 +39,16 @@ CaseProps == PropsAt(c.m, c.F, c.custom, c.nilRecv)
 Realizable == c.nilRecv => (c.F = {} /\ ~c.custom)
 \* The stub installed in m's field is programmed by the harness to return a value and no
 \* error ("val") or a value together with an error ("err"); both are tried where it matters.
+\* or, in the field-set family, the zero value of every result type with a nil error ("zero": nil
+\* reader / writer / iterator, zero descriptor) or with an error ("zeroerr").  A delegating call
+\* returns the delegate's results verbatim, whatever they are.
 SretsFor(o) == IF o.kind = "delegate" THEN {"val", "err"} ELSE {"val"}
+SretsAll(o) == IF o.kind = "delegate" THEN {"val", "err", "zero", "zeroerr"} ELSE {"val"}
 Export ==
   Realizable =>
     LET o == Call(c.m, c.F, c.custom, c.nilRecv)
         x == Effects(c.m, o) IN
-    \A s \in SretsFor(o) :
+    \A s \in SretsAll(o) :
       PrintT(<<"MBT", ToJson([m |-> c.m, F |-> c.F, custom |-> c.custom, nilrecv |-> c.nilRecv, sret |-> s,
                               pred |-> o.kind, to |-> o.to, ctors |-> x.ctors,
                               values |-> x.values, error |-> x.error, yields |-> x.yields])>>)
